@@ -28,7 +28,7 @@ fn strings(alpha: &[char], maxlen: usize) -> Vec<String> {
 
 /// the exclude rule exactly as the Verus contract `ex` states it, with the assumed component grammar:
 /// normal components = '/'-separated segments other than "", "." and ".."; lossy(path) = the string.
-fn ex_ref(rel: &str, excludes: &[String]) -> bool {
+pub fn ex_ref(rel: &str, excludes: &[String]) -> bool {
     let relc: Vec<char> = rel.chars().collect();
     excludes.iter().any(|pat| {
         let t = pat.trim_end_matches('/');
